@@ -37,7 +37,7 @@ LEVEL = "exploration"
 USES_JAX = True
 CLEAR_EVERY = 6
 RECYCLE_AFTER = 40
-BUDGET_S = {"quick": 480, "thorough": 2400}
+BUDGET_S = {"quick": 900, "thorough": 3000}  # guards only; measured CPU cost: see evidence wall_s
 RULE = (
     "full Cartesian product per loss of: batch size N in {1,2,3}, observation dim {1,2}, action dim {1,2} / "
     "#actions {2,3}, ALL 2^N termination patterns (2^(N*H) for the horizon losses, H in {1,2,3}), reward "
@@ -474,13 +474,26 @@ def leaves_absmax(tree):
 AUX_KIND = {"q_mean": K_QMEAN, "td": K_TD, "td_mean": K_TD, "y": K_Y, "zs": K_ZS}
 
 
-def compare_value(col, fam, out, ref, N, detail, key):
-    """Loss and auxiliary outputs against the reference. One evaluation."""
+def dup(x):
+    return np.concatenate([x, x], 0)
+
+
+def compare_value(col, fam, out, ref, N, detail, key, dup_ok=None):
+    """Loss and auxiliary outputs against the reference. One evaluation.
+
+    A wrong value at N=1 is charged to the N=1 rule only when the same row fed twice (N=2) gives the
+    documented value (`dup_ok()`); otherwise it is the general value defect, already seen at N>=2."""
     entry = ENTRY[fam]
     col.tick(1, key)
     ok = True
     if not num.close(out["loss"], ref["loss"]):
-        col.violation(SIG.format(entry, K_N1 if N == 1 else K_LOSS), dict(detail, got=float(out["loss"]), expected=ref["loss"]))
+        kind = K_LOSS
+        if N == 1 and dup_ok is not None:
+            try:
+                kind = K_N1 if dup_ok() else K_LOSS
+            except LOUD:
+                kind = K_LOSS
+        col.violation(SIG.format(entry, kind), dict(detail, got=float(out["loss"]), expected=ref["loss"]))
         ok = False
     for k in out:
         if k == "loss" or k not in ref:
@@ -588,13 +601,20 @@ def run_one_step(item, col):
                         return tonp(fwd_j(mods, a_, n_))
                     return tonp(real.fwd(states, a_, n_))
 
-                def refex():
+                def refex(act_=act, w_=wvec):
                     r = dict(ex)
                     if disc:
-                        r["act"] = act
+                        r["act"] = act_
                     if fam == "ddqn_per":
-                        r["w"] = wvec if ex["wmode"] == "vector" else None
+                        r["w"] = w_ if ex["wmode"] == "vector" else None
                     return r
+
+                def dup_ok(a_, n_, rew_, term_, gamma_):
+                    a2 = {kk: dup(v) for kk, v in a_.items()}
+                    n2 = {kk: (dup(v) if kk in ("act", "term") else v) for kk, v in n_.items()}
+                    o2 = evaluate(a2, n2, gamma_)
+                    r2, _ = td_reference(fam, fw_of(a2, n2), dup(rew_), dup(term_), gamma_, refex(dup(act) if disc else act, dup(wvec)))
+                    return num.close(o2["loss"], r2["loss"])
 
                 fw = None
                 for ti, term in enumerate(terms):
@@ -621,8 +641,8 @@ def run_one_step(item, col):
                             ref, dev = td_reference(fam, fw, rew, term, gamma, refex())
                             nontrivial = abs(dev["no_termination_mask"] - ref["loss"]) > 1e-3 or abs(dev["no_bootstrap"] - ref["loss"]) > 1e-3
                             k = (fam, N, O, A, pi, pj, ai, ti, ri, gamma, sorted(ex.items())) if nontrivial else None
-                            compare_value(col, fam, out, ref, N, detail, k)
-                            if N == 1:
+                            ok = compare_value(col, fam, out, ref, N, detail, k, lambda: dup_ok(a, n, rew, term, gamma))
+                            if N == 1 and ok:
                                 col.outcome(f"n1_same_per_sample_value:{fam}")
                             for dk, dv in dev.items():
                                 if abs(dv - ref["loss"]) > 1e-3:
@@ -680,8 +700,7 @@ def run_one_step(item, col):
                                 col.tick(1)
                                 col.outcome(f"{fam}:permutations")
                                 if fam == "sac":
-                                    ex2 = refex()
-                                    r2, _ = td_reference(fam, fw_of(a2, n2), rew[p], term[p], gamma, ex2)
+                                    r2, _ = td_reference(fam, fw_of(a2, n2), rew[p], term[p], gamma, refex())
                                     good = all(num.close(o2[kk], r2[kk]) for kk in o2)
                                 else:
                                     good = all(
@@ -747,8 +766,13 @@ def run_sale(item, col):
             fw = tonp(real.fwd(states, a, {}))
             # documented: L = mean over samples and features of (z^{sa} - sg(z^{s'}))^2
             ref = dict(loss=float(np.mean((f64(fw["zsa"]) - f64(fw["zs_next"])) ** 2)))
-            compare_value(col, fam, out, ref, N, detail, (fam, N, O, A, pi, oi, ai, ni))
-            if N == 1:
+            def dup_ok():
+                a2 = {kk: dup(v) for kk, v in a.items()}
+                f2 = tonp(real.fwd(states, a2, {}))
+                return num.close(real.value(states, a2, {}, {})["loss"], float(np.mean((f64(f2["zsa"]) - f64(f2["zs_next"])) ** 2)))
+
+            ok = compare_value(col, fam, out, ref, N, detail, (fam, N, O, A, pi, oi, ai, ni), dup_ok)
+            if N == 1 and ok:
                 col.outcome("n1_same_per_sample_value:sale")
             if N > 1:
                 # per-sample: pairing z^{sa}_i with z^{s'}_j, j != i, would give another value
@@ -869,8 +893,12 @@ def run_mrq(item, col):
                         )
                         nontrivial = abs(dev["no_termination_mask"] - loss) > 1e-3 or abs(dev["no_bootstrap"] - loss) > 1e-3
                         k = (fam, N, H, O, A, pi, pj, ri, gamma, rs, term.tobytes()) if nontrivial else None
-                        compare_value(col, fam, out, ref, N, detail, k)
-                        if N == 1:
+                        def dup_ok():
+                            o2 = real.value(states, {kk: dup(v) for kk, v in a.items()}, s, dict(term=dup(term)))
+                            return num.close(o2["loss"], loss)  # two identical rows: same mean as the single row
+
+                        ok = compare_value(col, fam, out, ref, N, detail, k, dup_ok)
+                        if N == 1 and ok:
                             col.outcome("n1_same_per_sample_value:mrq")
                         for dk, dv in dev.items():
                             if abs(dv - loss) > 1e-3:
